@@ -13,6 +13,7 @@ Inductive helper :=
                     first part removes all of them on every exit *)
 | HMultiReserve (* attachment extraction: a hidden reservation marker is created per output first; the
                    reservations made so far are released on every failure path and after the writes *)
+| HStagingCtor (* pdfcpu.createStagedFile: creates the staging file (no commit decision of its own) *)
 | HMulti       (* several outputs, each written through one of the helpers above; earlier outputs stay *)
 | HReadOnly    (* creates no file *)
 | HInPlace.    (* overwrites bytes of an existing file in place (PatchFile) *)
@@ -27,6 +28,8 @@ Inductive dkey :=
                     is unconditional; every part is recorded before the loop returns its error *)
 | DReleaseAlways (* reservations: every error return of the reserving function hands the list reserved so far
                     to the caller, which releases it; the release after the writes is deferred and unconditional *)
+| DRemovesStaging (* createStagedFile: every error return after the staging file exists closes it and removes
+                     f.Name() (the staging file), never the destination *)
 | DNoDefer     (* not deferred: runs only when the body returns *)
 | DNA.         (* no decision (read-only / multi-output driver) *)
 
@@ -35,11 +38,11 @@ Record frow := FRow { f_pkg : string; f_name : string; f_helper : helper; f_key 
 Definition helper_eqb (a b : helper) : bool :=
   match a, b with
   | HStaged, HStaged | HPdfStaged, HPdfStaged | HCut, HCut | HNewFile, HNewFile
-  | HMulti, HMulti | HMultiRollback, HMultiRollback | HMultiReserve, HMultiReserve | HReadOnly, HReadOnly | HInPlace, HInPlace => true
+  | HMulti, HMulti | HMultiRollback, HMultiRollback | HMultiReserve, HMultiReserve | HStagingCtor, HStagingCtor | HReadOnly, HReadOnly | HInPlace, HInPlace => true
   | _, _ => false
   end.
 Definition dkey_eqb (a b : dkey) : bool :=
   match a, b with
-  | DFlag, DFlag | DErr, DErr | DShadowedErr, DShadowedErr | DNoDefer, DNoDefer | DRollbackFirst, DRollbackFirst | DReleaseAlways, DReleaseAlways | DNA, DNA => true
+  | DFlag, DFlag | DErr, DErr | DShadowedErr, DShadowedErr | DNoDefer, DNoDefer | DRollbackFirst, DRollbackFirst | DReleaseAlways, DReleaseAlways | DRemovesStaging, DRemovesStaging | DNA, DNA => true
   | _, _ => false
   end.
